@@ -238,11 +238,38 @@ type GoRec struct {
 	n int64
 }
 
-func (r GoRec) Get() int64             { return r.A }
-func (r GoRec) Pair() (int64, string)  { return r.A, r.B }
-func (r *GoRec) Set(v int64)           { r.A = v }
-func (r *GoRec) Add(vs ...int64) int64 { s := r.A; for _, v := range vs { s += v }; return s }
-func (r GoRec) Nothing()               {}
+func (r GoRec) Get() int64            { return r.A }
+func (r GoRec) Pair() (int64, string) { return r.A, r.B }
+func (r *GoRec) Set(v int64)          { r.A = v }
+func (r *GoRec) Add(vs ...int64) int64 {
+	s := r.A
+	for _, v := range vs {
+		s += v
+	}
+	return s
+}
+func (r GoRec) Nothing() {}
+
+// named non-struct types with value- and pointer-receiver methods
+type GoStack []int64
+
+func (s GoStack) Len() int64    { return int64(len(s)) }
+func (s *GoStack) Push(v int64) { *s = append(*s, v) }
+
+type GoNum int64
+
+func (n GoNum) Double() int64 { return int64(n) * 2 }
+func (n *GoNum) Inc()         { *n++ }
+
+type GoDict map[string]int64
+
+func (d GoDict) Size() int64            { return int64(len(d)) }
+func (d *GoDict) Put(k string, v int64) { (*d)[k] = v }
+
+type GoText string
+
+func (t GoText) Upper() string    { return strings.ToUpper(string(t)) }
+func (t *GoText) Append(s string) { *t += GoText(s) }
 
 // scriptValues: source text of script-side argument values
 var goconvValues = []string{
@@ -519,6 +546,19 @@ func streamGoConv(o *Out, r *rand.Rand, n int, thorough bool) {
 		{"unexported-field", "r.n", "ERROR"},
 		{"method-wrong-argcount", "p.Set()", "ERROR"},
 		{"method-too-many-args", "p.Set(1, 2)", "ERROR"},
+		// Go's method sets on named non-struct types: T has the value-receiver methods, *T has all of them
+		{"named-slice-value-method", "st.Len()", "int64:2"},
+		{"named-slice-value-method-on-pointer", "pst.Len()", "int64:2"},
+		{"named-slice-pointer-method", "pst.Push(4)\npst.Len()", "int64:3"},
+		{"named-int-value-method", "nu.Double()", "int64:42"},
+		{"named-int-value-method-on-pointer", "pnu.Double()", "int64:42"},
+		{"named-int-pointer-method", "pnu.Inc()\npnu.Double()", "int64:44"},
+		{"named-map-value-method", "di.Size()", "int64:1"},
+		{"named-map-pointer-method", "pdi.Put(\"z\", 2)\npdi.Size()", "int64:2"},
+		{"named-string-value-method", "tx.Upper()", "string:" + hexOf("AB")},
+		{"named-string-pointer-method", "ptx.Append(\"c\")\nptx.Upper()", "string:" + hexOf("ABC")},
+		{"pointer-method-via-variable", "q = pst\nq.Push(1)\nq.Push(2)\npst.Len()", "int64:4"},
+		{"pointer-method-via-element", "l = [pnu]\nl[0].Inc()\npnu.Double()", "int64:44"},
 	}
 	for _, c := range mcases {
 		rec := GoRec{A: 5, B: "b", C: []int64{1, 2}}
@@ -526,6 +566,16 @@ func streamGoConv(o *Out, r *rand.Rand, n int, thorough bool) {
 		e := env.NewEnv()
 		_ = e.Define("r", rec)
 		_ = e.Define("p", ptr)
+		pst, pnu, pdi, ptx := &GoStack{1, 2}, new(GoNum), &GoDict{"a": 1}, new(GoText)
+		*pnu, *ptx = 21, "ab"
+		_ = e.Define("st", GoStack{1, 2})
+		_ = e.Define("pst", pst)
+		_ = e.Define("nu", GoNum(21))
+		_ = e.Define("pnu", pnu)
+		_ = e.Define("di", GoDict{"a": 1})
+		_ = e.Define("pdi", pdi)
+		_ = e.Define("tx", GoText("ab"))
+		_ = e.Define("ptx", ptx)
 		res, err, p := execGuard(e, c.src)
 		o.Sum.Evaluations++
 		o.Sum.Hist["member"]++
@@ -540,6 +590,9 @@ func streamGoConv(o *Out, r *rand.Rand, n int, thorough bool) {
 		}
 		if c.name == "field-write-through-pointer" && ptr.A != 8 {
 			o.Fail(Failure{Oracle: "go-members", Key: "goconv-member:" + c.name + ":host", Input: c.src, Detail: fmt.Sprintf("the Go struct holds A=%d after p.A = 8", ptr.A)})
+		}
+		if c.name == "named-slice-pointer-method" && len(*pst) != 3 || c.name == "named-int-pointer-method" && *pnu != 22 || c.name == "named-string-pointer-method" && *ptx != "abc" {
+			o.Fail(Failure{Oracle: "go-members", Key: "goconv-member:" + c.name + ":host", Input: c.src, Detail: "the pointer-receiver method did not act on the host's value"})
 		}
 		if c.name == "pointer-method-on-value-copy" && rec.A != 5 {
 			o.Fail(Failure{Oracle: "go-members", Key: "goconv-member:" + c.name + ":host", Input: c.src, Detail: "the host's struct value changed"})
@@ -578,6 +631,113 @@ func streamGoConv(o *Out, r *rand.Rand, n int, thorough bool) {
 			o.Fail(Failure{Oracle: "no-panic", Key: "goconv-panic:callback", Input: c.src, Detail: fmt.Sprint(p)})
 		} else if got != c.want {
 			o.Fail(Failure{Oracle: "go-callbacks", Key: "goconv-callback:" + c.name, Input: c.src, Detail: fmt.Sprintf("expected %s, got %s (err %v)", c.want, got, err)})
+		}
+	}
+	// (4b) an error inside a callback surfaces as an error of the enclosing call - for every result arity of the func
+	// type, every way of failing, whichever invocation fails; and the Go function's own work before it stays done
+	type cbShape struct {
+		name string
+		mk   func(calls *int) interface{}
+	}
+	shapes := []cbShape{
+		{"func(int64)", func(calls *int) interface{} {
+			return func(f func(int64)) int64 {
+				*calls++
+				f(1)
+				*calls++
+				f(2)
+				*calls++
+				return 3
+			}
+		}},
+		{"func(int64) int64", func(calls *int) interface{} {
+			return func(f func(int64) int64) int64 {
+				*calls++
+				a := f(1)
+				*calls++
+				b := f(2)
+				*calls++
+				return a + b
+			}
+		}},
+		{"func(int64) (int64, string)", func(calls *int) interface{} {
+			return func(f func(int64) (int64, string)) int64 {
+				*calls++
+				a, _ := f(1)
+				*calls++
+				b, _ := f(2)
+				*calls++
+				return a + b
+			}
+		}},
+		{"func(...int64)", func(calls *int) interface{} {
+			return func(f func(...int64)) int64 {
+				*calls++
+				f(1)
+				*calls++
+				f(2, 3)
+				*calls++
+				return 3
+			}
+		}},
+		{"func(interface{})", func(calls *int) interface{} {
+			return func(f func(interface{})) int64 {
+				*calls++
+				f(int64(1))
+				*calls++
+				f(int64(2))
+				*calls++
+				return 3
+			}
+		}},
+	}
+	fails := []struct{ name, stmt string }{
+		{"throw", "throw \"inner\""}, {"runtime-error", "undefinedName + 1"}, {"go-error", "boom()"}, {"bad-index", "[1][5]"},
+		{"none", ""},
+	}
+	for _, sh := range shapes {
+		for _, fl := range fails {
+			for when := 1; when <= 2; when++ {
+				calls := 0
+				e := env.NewEnv()
+				_ = e.Define("cb", sh.mk(&calls))
+				_ = e.Define("boom", func() error { return fmt.Errorf("boom") })
+				ret := "return a, \"s\""
+				if !strings.Contains(sh.name, "string") {
+					ret = "return 1"
+				}
+				param := "a"
+				if strings.Contains(sh.name, "...") {
+					param = "a..."
+				}
+				body := ret
+				if fl.stmt != "" {
+					body = fmt.Sprintf("n++\nif n == %d { %s }\n%s", when, fl.stmt, ret)
+				}
+				src := fmt.Sprintf("n = 0\nr = cb(func(%s) {\n%s\n})\n\"completed\"", param, body)
+				if fl.name == "go-error" {
+					// a Go function returning a non-nil error makes the call fail
+					src = strings.Replace(src, "boom()", "x = boom()\nif x != nil { throw x }", 1)
+				}
+				res, err, p := execGuard(e, src)
+				o.Sum.Evaluations++
+				o.Sum.Hist["callback-error:"+fl.name]++
+				in := src + "   with cb : func(f " + sh.name + ") int64 calling f twice"
+				switch {
+				case p != nil:
+					o.Fail(Failure{Oracle: "no-panic", Key: "goconv-panic:callback", Input: in, Detail: fmt.Sprint(p)})
+				case fl.stmt == "":
+					if err != nil || res != "completed" || calls != 3 {
+						o.Fail(Failure{Oracle: "go-callbacks", Key: "goconv-callback-ok:" + sh.name, Input: in, Detail: fmt.Sprintf("result %v, error %v, Go function progress %d/3", res, err, calls)})
+					}
+				case err == nil:
+					o.Fail(Failure{Oracle: "go-callbacks", Key: "goconv-callback-error-lost:" + sh.name, Input: in,
+						Detail: fmt.Sprintf("invocation %d of the callback fails (%s) but the enclosing call returned normally: script result %v", when, fl.name, res)})
+				case calls != when:
+					o.Fail(Failure{Oracle: "go-callbacks", Key: "goconv-callback-error-late:" + sh.name, Input: in,
+						Detail: fmt.Sprintf("invocation %d of the callback fails but the Go function went on (progress marker %d)", when, calls)})
+				}
+			}
 		}
 	}
 	// (5) identity
